@@ -186,24 +186,39 @@ class SymPattern:
             return s.base, s.off
         return s, 0
 
-    def match(self, s):
+    @staticmethod
+    def _clip(s, endpos):
+        """the subject as if it were endpos characters long (Pattern.match/search endpos argument)"""
+        if endpos is None or endpos >= len(s):
+            return s
+        return s[:max(0, endpos)]
+
+    def match(self, s, pos=0, endpos=None):
         if isinstance(s, str):
-            return self.real.match(s)
+            return self.real.match(s, pos) if endpos is None else self.real.match(s, pos, endpos)
         if not isinstance(s, SymStr):
             raise EngineGap(f"regex on {type(s).__name__}")
-        base, off = self._view(s)
-        return self._match_at(base, off, off)
-
-    def search(self, s):
+        s = self._clip(s, endpos)
         if isinstance(s, str):
-            return self.real.search(s)
+            return self.real.match(s, pos)
+        base, off = self._view(s)
+        if pos > len(s):
+            return None
+        return self._match_at(base, off, off + max(0, pos))
+
+    def search(self, s, pos=0, endpos=None):
+        if isinstance(s, str):
+            return self.real.search(s, pos) if endpos is None else self.real.search(s, pos, endpos)
         if not isinstance(s, SymStr):
             raise EngineGap(f"regex on {type(s).__name__}")
         hook = core.SEARCH_HOOK
-        if hook is not None:
+        if hook is not None and not pos and endpos is None:
             return hook(self, s)
+        s = self._clip(s, endpos)
+        if isinstance(s, str):
+            return self.real.search(s, pos)
         base, off = self._view(s)
-        for i in range(off, len(base.it) + 1):
+        for i in range(off + max(0, pos), len(base.it) + 1):
             m = self._match_at(base, off, i)
             if m is not None:
                 return m
